@@ -18,6 +18,7 @@ const smtHeader = `(declare-datatypes ((Slice 0)) (((mk_slice (s_arr Int) (s_off
 (define-fun go_mod ((a Int) (b Int)) Int (- a (* b (go_div a b))))
 (declare-fun sl_idx (Slice Int) Int)
 (assert (forall ((s Slice) (i Int)) (! (= (sl_idx s i) (+ (s_off s) i)) :pattern ((sl_idx s i)))))
+(define-fun fld_addr ((a Int) (i Int)) Int (+ (* a 1000000007) i))
 (declare-fun bit_and (Int Int) Int)
 (declare-fun bit_or (Int Int) Int)
 (declare-fun bit_xor (Int Int) Int)
@@ -27,7 +28,7 @@ const smtHeader = `(declare-datatypes ((Slice 0)) (((mk_slice (s_arr Int) (s_off
 (declare-fun unbox_slice (Int) Slice)
 (declare-fun str_bytes (String) (Array Int Int))
 (declare-fun bytes_str ((Array Int Int) Int Int) String)
-(declare-fun itoa (Int) String)
+(define-fun itoa ((n Int)) String (ite (>= n 0) (str.from_int n) (str.++ "-" (str.from_int (- n)))))
 (declare-fun atoi (String) Int)
 (declare-fun atoi_ok (String) Bool)
 `
